@@ -1624,6 +1624,12 @@ int symtab_add_qualifier_from_qualifier(symtab * tab, qualifier * value,
 int symtab_add_func_from_func(symtab * tab, func * func_value,
                               unsigned int syn_level, int * result)
 {
+    if (func_value->decl->id == NULL)
+    {
+        /* a function without a name cannot be referred to */
+        return 0;
+    }
+
     symtab_entry * entry = symtab_lookup(tab, func_value->decl->id,
                                          SYMTAB_LOOKUP_BLOCK);
     if (entry == NULL)
@@ -4858,9 +4864,14 @@ int func_entry_check_type(func * func_value, int * result)
 {
     func_entry_type is_entry = FUNC_ENTRY_TYPE_NONE;
 
-    if (func_value->decl->ret != NULL &&
-        func_entry_check_num_params(func_value->decl->params) == TYPECHECK_SUCC &&
-        param_is_num(func_value->decl->ret) == TYPECHECK_SUCC)
+    if (func_value->decl->id == NULL)
+    {
+        /* a function without a name cannot be looked up as an entry */
+        is_entry = FUNC_ENTRY_TYPE_NONE;
+    }
+    else if (func_value->decl->ret != NULL &&
+             func_entry_check_num_params(func_value->decl->params) == TYPECHECK_SUCC &&
+             param_is_num(func_value->decl->ret) == TYPECHECK_SUCC)
     {
         is_entry = FUNC_ENTRY_TYPE_PARAM_LIST;
     }
